@@ -31,7 +31,11 @@ first, then the parent's …).  The statement then fixes everything that is comp
 * caller headers arrive unchanged; no header appears that nobody asked for (X-Request-ID and
   Content-Type excepted — the former belongs to property C16);
 * the method is the verb of the entry point used;
-* response processors run in reverse order: innermost layer first, called connection's last.
+* response processors run in reverse order: innermost layer first, called connection's last — each
+  exactly once, **whatever the response is**.  What they are applied to (``expected_leaf``): the raw
+  response object when the caller asked for it; otherwise the decoded JSON value of the body, or the empty
+  string for an empty body (documented in ``get``); for a non-empty body that is not JSON the result is not
+  defined by the statement (the JSON decoder's exception is expected; not judged).
 """
 
 import base64
@@ -169,6 +173,21 @@ def decode_auth(value):
     return (scheme, rest)
 
 
+RAW = "<raw-response>"
+
+
+def expected_leaf(body_text, raw):
+    """-> (defined?, value the response processors start from)."""
+    if raw:
+        return True, RAW
+    if body_text == "":
+        return True, ""
+    try:
+        return True, json.loads(body_text)
+    except ValueError:
+        return False, None
+
+
 def expected_response(chain, value):
     for layer in reversed(chain):            # innermost first, called connection's processors last
         if layer[0] == "resp":
@@ -287,3 +306,6 @@ def selftest():
     b = g.wrap(a, [["prefix", "/out"], ["resp", "out"]], "wrap-list")
     assert expected_path(g.chain(b), "/x") == "/in/out/x"
     assert expected_response(g.chain(b), 1) == ["resp", "out", ["resp", "in", 1]]
+    assert expected_leaf("", False) == (True, "") and expected_leaf("null", False) == (True, None)
+    assert expected_leaf("oops", False)[0] is False and expected_leaf("oops", True) == (True, RAW)
+    assert expected_response(g.chain(b), "") == ["resp", "out", ["resp", "in", ""]]
